@@ -1,3 +1,4 @@
+mod cluster;
 mod conc;
 mod http;
 mod node;
@@ -14,6 +15,7 @@ fn main() {
     let rest = &args[2..];
     match args[1].as_str() {
         "seq" => seq::main(rest),
+        "cluster" => cluster::main(rest),
         "pending" => pending::main(rest),
         "oplog" => oplog::main(rest),
         "probe-load" => seq::probe_load(rest),
